@@ -246,7 +246,7 @@ inductive Res (α : Type) where
   | ok (a : α)
   | err (cls : String)
   | panic (cls : String)
-  deriving Repr
+  deriving Repr, DecidableEq
 
 /-- `openWriteOrCreate(fn, createIfNotExist)`: a created file exists (empty) from then on -/
 def openW (d : Disk) (create : Bool) : Disk × Except String Tree :=
@@ -472,5 +472,46 @@ def insertObj (x : Path × Obj) : Tree → Tree
   | y :: ys => if ltPath x.1 y.1 then x :: y :: ys else y :: insertObj x ys
 
 def sortTree (t : Tree) : Tree := t.foldr insertObj []
+
+/-! ## vocabulary of the property statements (what "the selected region" means, independent of the code) -/
+
+/-- "start, start+step, … while < lim" (at most `fuel` elements) -/
+def walkIdx (lim step : Nat) : Nat → Nat → List Nat
+  | 0, _ => []
+  | fuel + 1, x => if x < lim then x :: walkIdx lim step fuel (x + step) else []
+
+/-- the indices of a dimension of extent `e` that a `Slice` entry selects, in the property's words:
+nil = all; `[start, stop, step]` = `start, start+step, … < min(stop, extent)` -/
+def specIdx (e : Nat) : SelDim → List Nat
+  | none => List.range e
+  | some [a, b, st] => walkIdx (min b.toNat e) st.toNat e a.toNat
+  | some _ => []
+
+/-- a well-formed `Slice` entry: nil, or `[start, stop, step]` with `0 ≤ start`, `1 ≤ step` (any stop) -/
+def SelDimOK : SelDim → Prop
+  | none => True
+  | some [a, _, st] => 0 ≤ a ∧ 1 ≤ st
+  | some _ => False
+
+/-- per dimension, the indices a `Slice` selects -/
+def selIdx (sel : Sel) (s : List Nat) : List (List Nat) := List.zipWith (fun x e => specIdx e x) sel s
+
+/-- `c` is a coordinate inside the extent `s` -/
+def CoordIn : List Nat → List Nat → Prop
+  | [], [] => True
+  | c :: cs, e :: es => c < e ∧ CoordIn cs es
+  | _, _ => False
+
+/-- the block `loc + [0, dims)` lies inside the extent `s` -/
+def BlockIn : List Nat → List Nat → List Nat → Prop
+  | [], [], [] => True
+  | l :: ls, d :: ds, e :: es => l + d ≤ e ∧ BlockIn ls ds es
+  | _, _, _ => False
+
+/-- `c` lies in the block `loc + [0, dims)` -/
+def inBlock : List Nat → List Nat → List Nat → Bool
+  | [], [], [] => true
+  | c :: cs, l :: ls, d :: ds => decide (l ≤ c) && decide (c < l + d) && inBlock cs ls ds
+  | _, _, _ => false
 
 end OW.Sim.H5
